@@ -6,6 +6,7 @@ import Driver.Tomb
 import Driver.Hyb
 import Driver.Lay
 import Driver.Rcl
+import Driver.Crash
 /-
   `foyer_model`: reads traces from stdin, prints one verdict line per trace.
   A trace is a `cfg domain=<d> …` line followed by that domain's lines, up to the next `cfg`.
@@ -26,6 +27,7 @@ def monitor (cfgF : Fields) (body : List (Nat × Fields)) : String :=
   | "tomb" => Driver.Tomb.monitor cfgF body
   | "hyb" => Driver.Hyb.monitor cfgF body
   | "lay" => Driver.Lay.monitor cfgF body
+  | "crash" => Driver.Crash.monitor cfgF body
   | "blk" =>
     let r := Driver.Rcl.monitor cfgF body
     if r = "HOLDS" then Driver.Hyb.monitor cfgF body else r
@@ -40,6 +42,7 @@ def dispatch (cfgF : Fields) (body : List (Nat × Fields)) : String :=
   | "tomb" => Driver.Tomb.runTrace cfgF body
   | "hyb" => Driver.Hyb.runTrace cfgF body
   | "lay" => Driver.Lay.runTrace cfgF body
+  | "crash" => Driver.Crash.runTrace cfgF body
   | "blk" => Driver.Rcl.runTrace cfgF body
   | d => s!"REJECT line=0 step=0 field=domain model=unknown impl={d}"
 
